@@ -1863,10 +1863,17 @@ impl DtlsInner {
                         // sequence numbers from `write_seq` (seeded from
                         // ctx.sequence_number); the alert must draw from the same
                         // counter or it reuses the nonce of the first data record.
-                        let alert_seq = if matches!(*self.state.lock(), DtlsState::Connected(..)) {
+                        // That holds from the moment the handshake completed, whatever
+                        // the state reads now (a peer's close_notify may already have
+                        // moved it to Closed), and every number is used once.
+                        let alert_seq = if ctx.epoch > 0
+                            && self.write_epoch.load(Ordering::SeqCst) == ctx.epoch
+                        {
                             self.write_seq.fetch_add(1, Ordering::SeqCst)
                         } else {
-                            ctx.sequence_number
+                            let s = ctx.sequence_number;
+                            ctx.sequence_number += 1;
+                            s
                         };
                         let full_seq = ((ctx.epoch as u64) << 48) | alert_seq;
                         if let Ok(encrypted) = encrypt_record(
